@@ -27,7 +27,7 @@ extend_error_class extend_shortcut_unchecked pc_availability pc_rejects_iff
 pc_availability_agrees_with_cache pc_infidelity_identity_component deriv_shape_rejects_iff
 cumulant_rejects_iff convergence_rejects_iff'''.split()
 LEAN_MODULES = ['FFVerif.Props.C20']
-PINS = ['pinParseArgs', 'pinParseHamiltonian', 'pinParseOperators', 'pinParseSpectrum', 'pinGetIndices']
+PINS = ['pinParseArgs', 'pinParseHamiltonian', 'pinParseOperators', 'pinParseSpectrum', 'pinGetIndices', 'pinHashArray', 'pinAllArrayEqual']
 GEN_SITES = ['options']
 COMPONENTS = ['validate_args', 'validate_spectrum', 'validate_identifiers', 'validate_extend',
               'validate_concat', 'validate_basis', 'validate_remap', 'validate_pc',
@@ -820,6 +820,19 @@ def corruptions_compose(rng):
         dB['n_ids'] = ['other_name']
         return (lambda: ff.concatenate([A, gens.build(dB)])), {'ValueError'}
 
+    def c_two_ids_signed_zero():
+        # the same operator written in two ways that differ only by the sign of zeros, under two
+        # identifiers (noise or control)
+        Zm = -Z
+        Zd = np.diag([-1., 1.]).astype(complex)
+        if rng.random() < 0.5:
+            A = ff.PulseSequence([[X, [0.3]]], [[Zm, [1.0], 'foo']], [1.0])
+            B = ff.PulseSequence([[X, [0.5]]], [[Zd, [1.0], 'bar']], [1.0])
+        else:
+            A = ff.PulseSequence([[Zm, [0.3], 'foo']], [[X, [1.0]]], [1.0])
+            B = ff.PulseSequence([[Zd, [0.5], 'bar']], [[X, [1.0]]], [1.0])
+        return (lambda: ff.concatenate([A, B])), {'ValueError'}
+
     def c_force_no_omega():
         A, B = two(2)
         return (lambda: ff.concatenate([A, B], calc_filter_function=True)), {'ValueError'}
@@ -940,7 +953,7 @@ def corruptions_compose(rng):
         return (lambda: A.get_filter_function_derivative(om, n_coeffs_deriv=np.ones(shp))), {'ValueError'}
 
     return [(f.__name__, f) for f in
-            (c_dim, c_basis, c_two_ids, c_force_no_omega, c_pc_no_omega, c_not_pulse, c_nonconst,
+            (c_dim, c_basis, c_two_ids, c_two_ids_signed_zero, c_force_no_omega, c_pc_no_omega, c_not_pulse, c_nonconst,
              e_clash, e_dt, e_dim, e_small_N, e_dup_add, e_add_clash, e_ff_no_omega, s_shape, s_nonherm,
              i_unknown, o_unknown, pc_not_computed, pc_other_freq, slice_empty, deriv_shape)]
 
@@ -1009,6 +1022,15 @@ def valid_calls(rng):
               dict(calc_filter_function=False)][k]
         return (lambda: ff.concatenate(ps, **kw)), f'concat:{k}'
 
+    def v_concat_signed_zero():
+        # one noise operator, written in two ways that differ only by the sign of zeros, under one
+        # identifier and with time-dependent sensitivities: the same operator
+        Zm = -Z
+        Zd = np.diag([-1., 1.]).astype(complex)
+        A = ff.PulseSequence([[X, [0.3, 0.1]]], [[Zm, [1.0, 2.0], 'foo']], [1.0, 0.5])
+        B = ff.PulseSequence([[Y, [0.5, 0.2]]], [[Zd, [0.5, 1.5], 'foo']], [1.0, 0.7])
+        return (lambda: ff.concatenate([A, B])), 'concat:signed_zero_operator'
+
     def v_concat_int_omega():
         q1 = ff.PulseSequence([[X, [1.]]], [[Z, [1.]]], [1.])
         q2 = ff.PulseSequence([[Y, [1.]]], [[Z, [1.]]], [1.])
@@ -1043,7 +1065,7 @@ def valid_calls(rng):
                 (lambda: ff.Basis.from_partial(list(ff.Basis.ggm(d))[:3], traceless=False)),
                 (lambda: ff.Basis([gens.rand_herm(rng, d, False)], labels=['a']))][k], f'basis:{k}'
 
-    return [v_ctor, v_extend_int_dt, v_extend, v_remap_d6, v_remap_d216, v_concat, v_concat_int_omega,
+    return [v_ctor, v_extend_int_dt, v_extend, v_remap_d6, v_remap_d216, v_concat, v_concat_signed_zero, v_concat_int_omega,
             v_spectrum, v_slice, v_basis]
 
 
